@@ -563,10 +563,17 @@ class Range(Terminal):
         super().__init__(tag)
         self.start = start
         self.stop = stop
-        self._re = re.compile(rf"[{re.escape(self.start)}-{re.escape(self.stop)}]")
+        self._re = re.compile(self.pattern())
 
     def __str__(self) -> str:
         return f"{self.tag_str()}'{self.start!r}'..'{self.stop!r}'"
+
+    def pattern(self) -> str:
+        """Return a regular expression matching one character in this range."""
+        if self.start > self.stop:
+            # An empty range never matches.
+            return r"(?!)"
+        return rf"[{re.escape(self.start)}-{re.escape(self.stop)}]"
 
     def parse(self, state: ParserState, pairs: list[Pair]) -> bool:  # noqa: D102
         if match := self._re.match(state.input, state.pos):
@@ -579,8 +586,7 @@ class Range(Terminal):
         """Emit Python code for a character range."""
         gen.writeln("# <Range>")
 
-        pattern = rf"[{re.escape(self.start)}-{re.escape(self.stop)}]"
-        re_var = gen.constant("RE", f"re.compile({pattern!r})")
+        re_var = gen.constant("RE", f"re.compile({self.pattern()!r})")
 
         gen.writeln(f"if match := {re_var}.match(state.input, state.pos):")
         with gen.block():
